@@ -270,8 +270,8 @@ GRAMMAR = {
     "ts": dict(
         header=re.compile(rf"^function model\(time: number, variables: number\[\](?P<free>(?:, {IDENT}: number)*)\) \{{$"),
         free=re.compile(rf"({IDENT}): number"),
-        unpack=re.compile(rf"^\s*let \[(?P<names>{IDENT}(?:, {IDENT})*)\] = variables;$"),
-        assign=re.compile(rf"^\s*let (?P<k>{IDENT}): number = (?P<v>.+);$", re.S),
+        unpack=re.compile(rf"^\s*(?:let|const) \[(?P<names>{IDENT}(?:, {IDENT})*)\] = variables;$"),
+        assign=re.compile(rf"^\s*(?:let|const) (?P<k>{IDENT})(?:: number)? = (?P<v>.+);$", re.S),
         ret=re.compile(r"^\s*return \[(?P<r>.*)\];$", re.S),
         end=re.compile(r"^\};$"),
     ),
@@ -279,7 +279,7 @@ GRAMMAR = {
         header=re.compile(rf"^fn model\(time: f64, variables: &\[f64; (?P<n>\d+)\](?P<free>(?:, {IDENT}: f64)*)\) -> \[f64; (?P<n2>\d+)\] \{{$"),
         free=re.compile(rf"({IDENT}): f64"),
         unpack=re.compile(rf"^\s*let \[(?P<names>{IDENT}(?:, {IDENT})*)\] = \*variables;$"),
-        assign=re.compile(rf"^\s*let (?P<k>{IDENT}): f64 = (?P<v>.+);$", re.S),
+        assign=re.compile(rf"^\s*let(?: mut)? (?P<k>{IDENT})(?:: f64)? = (?P<v>.+);$", re.S),
         ret=re.compile(r"^\s*return \[(?P<r>.*)\]$", re.S),
         end=re.compile(r"^\}$"),
     ),
@@ -296,7 +296,12 @@ GRAMMAR = {
 
 def split_statements(src, lang):
     """Header, body statements (multi-line conditional expressions re-joined), end line."""
-    lines = [ln for ln in src.split("\n") if ln.strip()]
+    # comments are not code: // and # line comments (and trailing ones) are dropped
+    lines = []
+    for ln in src.split("\n"):
+        ln = re.sub(r"\s+(//|#).*$", "", ln) if not re.match(r"^\s*(//|#)", ln) else ""
+        if ln.strip():
+            lines.append(ln)
     if len(lines) < 2:
         raise NotWellFormed("too short")
     stmts = [lines[0]]
